@@ -850,8 +850,10 @@ func (ls *LanceroSource) distributeData(buffersMsg BuffersChanType) *dataBlock {
 	// Then we record the "rowcounts", where rowcount = nrow*framecount+row
 	// external trigger search must occur before Mix, since mix alters FB in place
 	externalTriggerRowcounts := make([]int64, 0)
-	nrows := ls.devices[0].nrows
-	ncols := ls.devices[0].ncols
+	// Scan the card that is being read (the reader handles exactly one active card), not whichever
+	// card happens to have device number 0: that one may be absent, or present but not configured.
+	nrows := ls.active[0].nrows
+	ncols := ls.active[0].ncols
 	for frame := 0; frame < framesUsed; frame++ { // frame within this block, need to add ls.nextFrameNum for consistent timing across blocks
 		for row := 0; row < nrows; row++ { // search the first column for frame bit level triggers
 			// datacopies is still in READOUT order here (r0c0, r0c1, ..., r1c0, ...): the feedback
